@@ -57,13 +57,16 @@ def digitsUS : Bool → Str → Option Str
     else if c = '_' ∧ prev then digitsUS false r
     else none
 
+/-- an optional sign in front of the digits -/
+def signSplit : Str → Bool × Str
+  | '-' :: r => (true, r)
+  | '+' :: r => (false, r)
+  | r => (false, r)
+
 /-- `int(s)` for a Python `str`; `none` = `ValueError` -/
 def pyInt (s : Str) : Option Int :=
   let t := (s.dropWhile isPySpace).reverse.dropWhile isPySpace |>.reverse
-  let (neg, body) := match t with
-    | '-' :: r => (true, r)
-    | '+' :: r => (false, r)
-    | r => (false, r)
+  let (neg, body) := signSplit t
   match digitsUS false body with
   | none => none
   | some ds => let n := Nat.ofDigitChars 10 ds 0; some (if neg then -(n : Int) else n)
